@@ -41,7 +41,7 @@ theorem rebuiltOrSame_spec (chk : Ref → Bool) (h0 h1 : Heap) (st : StepImp chk
     | type t' =>
       simp only [SameHead] at hd
       exact ⟨t', readType_of_read hr', hd.1, hd.2.1, fun x => by simpa [refsOf] using hrefs (by simpa [refsOf] using x),
-        fun c hc => by rw [heq]; simpa [kids] using hk c (by simpa [kids] using hc), StepImp.refl chk h1⟩
+        fun c hc => by rw [heq]; simpa [kids] using hk.subset (by simpa [kids] using hc), StepImp.refl chk h1⟩
     | field _ => simp [SameHead] at hd
     | arg _ => simp [SameHead] at hd
     | dir _ => simp [SameHead] at hd
@@ -148,7 +148,7 @@ theorem onComposite_step (v : Visitor) (reg : List (String × Addr)) (h : Heap) 
     · split
       · refine StepAll.trans ?_ (compositeRest_step _ reg a _ _)
         intro chk _
-        exact write_type_fields chk h a t _ ht (fun c hc => (List.mem_filter.mp hc).1)
+        exact write_type_fields chk h a t _ ht List.filter_sublist
       · exact compositeRest_step _ reg a h t
   | heal => exact compositeRest_step _ reg a h t
   | camel r => exact compositeRest_step _ reg a h t
@@ -174,7 +174,7 @@ theorem onComposite_est (v : Visitor) (reg : List (String × Addr)) (chk0 : Ref 
     · intro a' e; cases e
     · split
       · have hw := write_type_fields chk0 h a t (t.fields.filter fun fa => match fieldName h fa with | some fnm => p.fieldVis t.name fnm | none => true)
-          ht (fun c hc => (List.mem_filter.mp hc).1)
+          ht List.filter_sublist
         have := compositeRest_est (.vis p) reg chk0 hc a _ { t with fields := t.fields.filter fun fa => match fieldName h fa with | some fnm => p.fieldVis t.name fnm | none => true }
           (readType_write_self h a _ (readType_lt' ht)) (by simpa using hk) (by simpa [typeRefs_fields] using hrefs)
           (fun c hcm => fieldShape_keep hw c (hfields c (List.mem_filter.mp hcm).1))
@@ -246,7 +246,7 @@ theorem onInputObject_step (v : Visitor) (reg : List (String × Addr)) (h : Heap
     split
     · refine StepAll.trans ?_ (inputRest_step _ reg a _ _ _)
       intro chk _
-      exact write_type_fields chk h a t _ ht (fun c hc => (List.mem_filter.mp hc).1)
+      exact write_type_fields chk h a t _ ht List.filter_sublist
     · exact inputRest_step _ reg a _ h t
   | heal => exact inputRest_step _ reg a _ h t
   | camel r => exact inputRest_step _ reg a _ h t
@@ -263,7 +263,7 @@ theorem onInputObject_est (v : Visitor) (reg : List (String × Addr)) (chk0 : Re
     simp only
     split
     · have hw := write_type_fields chk0 h a t (t.fields.filter fun fa => match argName h fa with | some fnm => p.inputVis t.name fnm | none => true)
-        ht (fun c hc => (List.mem_filter.mp hc).1)
+        ht List.filter_sublist
       exact inputRest_est (.vis p) reg chk0 hc a t.name _ { t with fields := t.fields.filter fun fa => match argName h fa with | some fnm => p.inputVis t.name fnm | none => true }
         (readType_write_self h a _ (readType_lt' ht)) (by simpa using hk)
         (fun c hcm => argShape_keep hw c (hfields c (List.mem_filter.mp hcm).1))
@@ -431,7 +431,7 @@ theorem onDirective_est (v : Visitor) (reg : List (String × Addr)) (chk0 : Ref 
         | dir d' =>
           simp only [dirShape, readDir_of_read hr', List.all_eq_true]
           intro c hcm
-          have hmm : c ∈ d.args := by simpa [kids] using hk c (by simpa [kids] using hcm)
+          have hmm : c ∈ d.args := by simpa [kids] using hk.subset (by simpa [kids] using hcm)
           exact hest c (by rw [heq]; exact hmm)
         | type _ => simp [SameHead] at hdd
         | arg _ => simp [SameHead] at hdd
